@@ -65,7 +65,8 @@ Section C01.
 
   Record cfg := { batch : nat; workers : nat; readers : nat; buffer : nat }.
   Definition cfg_ok c := batch c >= 1 /\ workers c >= 1 /\ readers c >= 1 /\ buffer c >= 1.
-  Definition input := list (bool * list bool * list L).  (* per source: opens?, flush oracle, lines *)
+  (* per source: (opens?, ends in a read error?), flush oracle, lines delivered before EOF/error *)
+  Definition input := list ((bool * bool) * list bool * list L).
   Variable state : Type.
   Variable init : cfg -> input -> state.
   Variable step : cfg -> state -> state -> Prop.
@@ -78,7 +79,7 @@ Section C01.
   Variable finished : state -> Prop.                   (* every thread at its final pc *)
 
   Definition lines_of (i : input) : list L :=
-    flat_map (fun x => match x with (true, _, ls) => ls | _ => [] end) i.
+    flat_map (fun x => match x with ((true, _), _, ls) => ls | _ => [] end) i.
   Definition count_cls (p : cls -> bool) (ls : list L) := length (filter (fun l => p (classify l)) ls).
   Definition seq_keys (ls : list L) : list K :=
     flat_map (fun l => match classify l with Mat k => [k] | _ => [] end) ls.
@@ -88,16 +89,17 @@ Section C01.
     cR s = length (lines_of i) /\
     cM s = count_cls (fun x => match x with Mat _ => true | _ => false end) (lines_of i) /\
     cI s = count_cls (fun x => match x with Ign => true | _ => false end) (lines_of i) /\
-    cErr s = length (filter (fun x => negb (fst (fst x))) i) /\
+    cErr s = length (filter (fun x => let '(o, e) := fst (fst x) in negb o || e) i) /\
     Permutation (map snd (consumed s)) (seq_keys (lines_of i)).
   Definition C01_progress := forall c i s, cfg_ok c -> reach c i s -> ~ finished s -> exists s', step c s s'.
   Variable measure : state -> nat.
   Definition C01_terminates := forall c i s s', cfg_ok c -> reach c i s -> step c s s' -> measure s' < measure s.
   Definition C02_line_numbers := forall c i s, cfg_ok c -> reach c i s ->
     forall src n l k, In (src, n, l, k) (consumed s) ->
-      exists o f ls, nth_error i src = Some (o, f, ls) /\ n >= 1 /\ nth_error ls (n - 1) = Some l /\ classify l = Mat k.
+      exists o f ls, nth_error i src = Some (o, f, ls) /\ fst o = true /\ n >= 1 /\
+                     nth_error ls (n - 1) = Some l /\ classify l = Mat k.
   Definition C02_order_1x1 := forall c o f ls s, cfg_ok c -> workers c = 1 ->
-    reach c [(o, f, ls)] s -> terminal c s -> map snd (consumed s) = seq_keys (if o then ls else []).
+    reach c [(o, f, ls)] s -> terminal c s -> map snd (consumed s) = seq_keys (if fst o then ls else []).
 End C01.
 
 Section C02ctx.
